@@ -186,12 +186,12 @@ def rule_sibling_fill(prog, C, rule="R-C03-b"):
                 for rma in (("nan", "zero") if name == "valid_count" else ("nan",)):
                     cf = aggr.Config(weights=w, ignore=ign, rma=rma)
                     mf = model(prog, "ffuncs", "ffunc_" + name, cf)
-                    for nd, co in ((1, True), (2, True), (1, False)):
+                    for nd, co in ((1, True), (2, True), (1, False), (2, False)):
                         if name == "count" and nd == 2:
                             continue
                         cx = aggr.Config(weights=w, ignore=ign, rma=rma, ndim=nd, coords=co, N=(not co))
                         mx = model(prog, "xfuncs", "xfunc_" + name, cx)
-                        branch = "no coordinates" if not co else ("one column (bincount)" if nd == 1 else "several columns (bins)")
+                        branch = ("no coordinates" if nd == 1 else "no coordinates, several columns") if not co else ("one column (bincount)" if nd == 1 else "several columns (bins)")
                         where = "xfuncs:xfunc_%s.fill" % name
                         if mf.npos != mx.npos:
                             C.add(rule, VIOLATED, where, "%s: number of regions, weights %s" % (name, w), "index cube keeps %s regions, array cube %s" % (mf.npos, mx.npos))
@@ -610,6 +610,113 @@ def rule_region_dtypes(prog, C, rule, classes=None):
                     C.add(rule, UNDECIDED, where, cons, "dtype %s not recognised" % unk[0][1])
                 else:
                     C.add(rule, PROVED, where, cons, "64-bit int/float or the fact array's dtype")
+    return n
+
+
+def _mentions(lin, pred):
+    def walk(x):
+        if pred(x):
+            return True
+        if isinstance(x, (tuple, list)):
+            return any(walk(y) for y in x)
+        if isinstance(x, dict):
+            return any(walk(k) for k in x)
+        return False
+    return walk(lin)
+
+
+def _fold_cfg(t, cfg):
+    """Truth of a dtype-choice condition under a configuration: `<weights> is [not] None`, `numpy.isnan(<null>)`,
+    not / and / or; None when something else is tested."""
+    if t.op == "not":
+        v = _fold_cfg(t.args[0], cfg)
+        return None if v is None else not v
+    if t.op == "bool":
+        vs = [_fold_cfg(x, cfg) for x in t.args[1:]]
+        if t.args[0] == "and":
+            return False if any(v is False for v in vs) else (None if any(v is None for v in vs) else True)
+        return True if any(v is True for v in vs) else (None if any(v is None for v in vs) else False)
+    if t.op == "cmp" and t.args[0] in ("is", "is not") and tm.NONE in t.args[1:]:
+        other = t.args[1] if t.args[2] == tm.NONE else t.args[2]
+        if (other.op == "param" and other.args[0] == "weights") or (other.op == "attr" and other.args[1] == "weights"):
+            return (cfg.weights == "none") == (t.args[0] == "is")
+        return None
+    if t.op == "call" and tm.callee_name(t) in ("numpy.isnan", "math.isnan") and t.args[1]:
+        a = t.args[1][0]
+        if (a.op == "param" and a.args[0] == "return_missing_as") or (a.op == "attr" and a.args[1] in ("null", "return_missing_as")):
+            return cfg.rma == "nan"
+    return None
+
+
+def _dtype_alts(dt, cfg):
+    if dt.op == "ifexp":
+        v = _fold_cfg(dt.args[0], cfg)
+        if v is True:
+            return _dtype_alts(dt.args[1], cfg)
+        if v is False:
+            return _dtype_alts(dt.args[2], cfg)
+        return _dtype_alts(dt.args[1], cfg) + _dtype_alts(dt.args[2], cfg)
+    return [dt]
+
+
+INTS = {"builtins.int", "numpy.int64", "numpy.intp", "numpy.int_", "numpy.longlong", "builtins.bool", "numpy.bool_"} | {d for d in NARROW if "float" not in d and d not in ("numpy.single", "numpy.half")}
+FLOATS = {"builtins.float", "numpy.float64", "numpy.double"}
+
+
+def rule_region_kind(prog, C, rule, modules=("ffuncs", "xfuncs"), classes=None):
+    """Per configuration, a region whose cells receive weight values (or a scalar weight times a count) is a float
+    region, and one that receives fact values is a float region or has the summed array's own dtype: an integer region
+    truncates every fractional weight / fact on the store (NumPy casts silently on `region[...] = value`)."""
+    n = 0
+    for module in modules:
+        pre = "ffunc_" if module == "ffuncs" else "xfunc_"
+        for name in SHARED:
+            if classes and name not in classes:
+                continue
+            for w in weight_modes(name):
+                for rma in (("nan", "tuple", "zero") if name in ("count", "valid_count") else ("nan", "tuple")):
+                    for ign in (False, True):
+                        cfg = aggr.Config(weights=w, rma=rma, ignore=ign)
+                        m = model(prog, module, pre + name, cfg)
+                        fi = m.gir[0]
+                        for p, r in enumerate(getattr(m, "region_terms", None) or []):
+                            cells = m.cell.get(p, [])
+                            if not cells or r.op != "call":
+                                continue
+                            wv = any(_mentions(c, lambda x: x == ("VALS", "weights") or (isinstance(x, tuple) and len(x) == 3 and x[0] == "MULS" and x[1] == "W")) for c in cells)
+                            fv = any(_mentions(c, lambda x: x == ("VALS", "arr")) for c in cells)
+                            if not (wv or fv):
+                                continue
+                            n += 1
+                            where = "%s:%s%s.get_initial_regions" % (module, pre, name)
+                            cons = "%s region %d, weights %s, return_missing_as %s, %s: dtype can hold %s" % (name, p, w, rma, "ignore" if ign else "propagate", "fractional weights" if wv else "the fact values")
+                            dt = tm.kwarg(r, "dtype")
+                            if dt is None:
+                                C.add(rule, PROVED, where, cons, "default dtype float64")
+                                continue
+                            bad, unk, shown = [], [], []
+                            for a in _dtype_alts(dt, cfg):
+                                d = tm.dotted(a)
+                                if a.op == "const" and isinstance(a.args[1], str):
+                                    d = "builtins.float" if a.args[1].lstrip("<=>|") in ("f8", "float64", "float", "d") else ("builtins.int" if a.args[1].lstrip("<=>|")[:1] in ("i", "u", "b") else None)
+                                shown.append(d or tm.show(a)[:40])
+                                if d in FLOATS:
+                                    continue
+                                if a.op == "attr" and a.args[1] == "dtype":
+                                    if wv and not tm.contains(a.args[0], lambda x: (x.op == "param" and x.args[0] == "weights") or (x.op == "attr" and x.args[1] == "weights")):
+                                        bad.append("the dtype of an array that does not involve the weights")
+                                    continue  # the summed array's own dtype
+                                if d in INTS:
+                                    bad.append(d)
+                                else:
+                                    unk.append(tm.show(a)[:40])
+                            if bad:
+                                C.add(rule, VIOLATED, where, cons, "region allocated as %s while its cells receive %s: the fractional part is cut off on the store" % (bad[0], "weight values" if wv else "fact values"),
+                                      {"inputs": "weights [0.5, 0.5]: the cell holds 0 instead of 1.0" if wv else "facts [0.5, 0.25]: the cell holds 0"})
+                            elif unk:
+                                C.add(rule, UNDECIDED, where, cons, "dtype %s not recognised" % unk[0])
+                            else:
+                                C.add(rule, PROVED, where, cons, ", ".join(sorted(set(shown))))
     return n
 
 
